@@ -12,7 +12,7 @@ from concurrent.futures import ProcessPoolExecutor
 import lib
 import walkh
 
-FILE_POOL = ["x.cmake", "x.d.cmake", "x-y.cmake", "x+z.cmake", "y.cmake", "Z.CMAKE", "w.CMake", "n.txt", "cmake", "d.e-f.cmake", "README", "v1.2.cmake", "k.cmake.in"]
+FILE_POOL = ["x.cmake", ".h.cmake", "x.d.cmake", "x-y.cmake", "x+z.cmake", "y.cmake", "Z.CMAKE", "w.CMake", "n.txt", "cmake", "d.e-f.cmake", "README", "v1.2.cmake", "k.cmake.in"]
 DIR_POOL = ["a", "ab", "b", "c", "sub", "sub2", "x.d", "out-old", "outer"]
 PATTERNS = [("a", "a", False), ("b/", "b", True), ("*.CMAKE", "*.CMAKE", False), ("**/c", "c", False), ("y.cmake", "y.cmake", False),
             ("x.cmake", "x.cmake", False), ("*.cmake", "*.cmake", False), ("sub/", "sub", True), ("n.txt", "n.txt", False), ("x.d", "x.d", False),
